@@ -113,13 +113,13 @@ class Gen:
                 self.tags.add("exception-propagates")
             stmt_fn(ind)
 
-    def action(self, ind, i, nfun, raisers, gens):
+    def action(self, ind, i, nfun, raisers, gens, qual=None):
         """one statement group inside function i; callees have a larger index"""
         rng = self.rng
         later = list(range(i + 1, nfun))
         plain = [j for j in later if j not in gens]
         glist = [j for j in later if j in gens]
-        k = rng.randrange(13)
+        k = rng.randrange(17)
         if not plain:
             k = rng.choice([1, 2, 6])
         if k in (0, 7, 12) or (k == 10 and not glist):
@@ -138,7 +138,7 @@ class Gen:
         elif k == 3:
             j = rng.choice(plain)
             nm, st = rng.choice([("builtins.sorted", "sorted([d, d], key=q_f%d)" % j), ("builtins.max", "max([d], key=q_f%d)" % j),
-                                 ("builtins.max", "max([d, d + 1], key=q_f%d)" % j)])
+                                 ("builtins.max", "max([d, d], key=q_f%d)" % j)])
             self.guarded(ind, j, raisers, lambda n: self.logged(n, nm, st))
             self.tags.add("callback-from-builtin")
         elif k == 4:
@@ -174,6 +174,35 @@ class Gen:
                 self.logged(ind, "builtins.next", "next(_g)")
                 self.logged(ind, "generator.close", "_g.close()")
                 self.tags.add("generator-closed")
+        elif k == 13 and glist:
+            # generator.throw(): the exception is raised at the yield, runs the finally blocks and comes back
+            j = rng.choice(glist)
+            self.emit(ind, "_g = q_f%d(d)" % j)
+            self.logged(ind, "builtins.next", "next(_g)")
+            self.emit(ind, "try:")
+            self.logged(ind + 1, "generator.throw", "_g.throw(KeyError(d))")
+            self.emit(ind, "except KeyError:")
+            self.emit(ind + 1, "pass")
+            self.tags.add("generator-throw")
+        elif k == 14 and glist:
+            j = rng.choice(glist)
+            self.emit(ind, "_g = q_f%d(d)" % j)
+            self.logged(ind, "builtins.next", "next(_g)")
+            self.logged(ind, "generator.send", "_g.send(d)")
+            self.logged(ind, "generator.close", "_g.close()")
+            self.tags.add("generator-send")
+        elif k == 15 and qual:
+            # a list comprehension is a function of its own in CPython 3.11; it runs exactly here
+            j = rng.choice(plain)
+            self.guarded(ind, j, raisers, lambda n: self.logged(n, qual + ".<locals>.<listcomp>", "[q_f%d(d) for _i in (1, 2)]" % j))
+            self.tags.add("listcomp")
+        elif k == 16 and qual:
+            j = rng.choice(plain)
+            self.guarded(ind, j, raisers, lambda n: self.logged(n, qual + ".<locals>.<lambda>", "(lambda _x: q_f%d(_x))(d)" % j))
+            self.tags.add("lambda")
+        elif k in (13, 14, 15, 16):
+            j = rng.choice(plain)
+            self.guarded(ind, j, raisers, lambda n: self.emit(n, "q_f%d(d)" % j))
         else:   # 11
             j = rng.choice(plain)
             self.guarded(ind, j, raisers, lambda n: (self.emit(n, "for _v in c19lib.q_lgen(q_f%d, d):" % j), self.emit(n + 1, "pass")))
@@ -200,6 +229,8 @@ class Gen:
                 self.emit(0, "c19lib.LOG += ['E builtins.__build_class__']")
                 self.emit(0, "class Q_K%d:" % j)
                 self.emit(1, "c19lib.LOG += ['E Q_K%d', 'X Q_K%d']" % (j, j))
+                self.emit(1, "def __init__(self):")
+                self.emit(2, "c19lib.LOG += ['E Q_K%d.__init__', 'X Q_K%d.__init__']" % (j, j))
                 self.emit(1, "def q_m(self, d):")
                 ind = 2
                 self.tags.add("method")
@@ -223,14 +254,15 @@ class Gen:
                 self.emit(b + 1, "finally:")
                 self.emit(b + 2, "c19lib.LOG += ['E %s']" % qual)
                 if j + 1 < nfun and rng.random() < 0.5:
-                    self.action(b + 1, j, nfun, raisers, gens)
+                    self.action(b + 1, j, nfun, raisers, gens, qual)
             else:
                 if j == rec_fn:
+                    back = rng.choice([j, j] + [i for i in range(1, j) if i not in gens])
                     self.emit(b, "if d > 0:")
-                    self.emit(b + 1, "q_f%d(d - 1)" % j)
-                    self.tags.add("recursion")
+                    self.emit(b + 1, "q_f%d(d - 1)" % back)
+                    self.tags.add("recursion" if back == j else "mutual-recursion")
                 for _ in range(rng.choice([1, 1, 2, 3] if j < 3 else [0, 1, 1, 2]) if j + 1 < nfun else 0):
-                    self.action(b, j, nfun, raisers, gens)
+                    self.action(b, j, nfun, raisers, gens, qual)
                 if j == end_fn:
                     # the dump must be the last thing in the log, so print first
                     self.logged(b, "builtins.print", "print('ending', d)")
@@ -267,7 +299,8 @@ class Gen:
             self.emit(0, "raise SystemExit(5)")
         if ending == "uncaught":
             self.emit(0, "raise RuntimeError('uncaught: the interpreter prints the traceback of the script')")
-        fnames = sorted(set(names.values()) | set("q_f%d" % j for j in range(nfun) if style[j] == "method"))
+        fnames = sorted(set(names.values()) | set("q_f%d" % j for j in range(nfun) if style[j] == "method")
+                        | set("Q_K%d.__init__" % j for j in range(nfun) if style[j] == "method"))
         return "\n".join(L) + "\n", ending, fnames
 
 
